@@ -460,4 +460,35 @@ def r20_7(run):
     run.floor(2)
 
 
-RULES = [("R20.1", r20_1), ("R20.2", r20_2), ("R20.3", r20_3), ("R20.4", r20_4), ("R20.5", r20_5), ("R20.6", r20_6), ("R20.7", r20_7)]
+def r20_8(run):
+    """the controller tables of the member nets are combined with the multinet's own table and cast to the multinet's column
+    types (get_controller_order_multinet); the two table declarations must therefore agree column by column -- a narrower type on
+    the multinet side (an integer `order`) silently changes the order and level in which coupled controllers run"""
+    from ..arrnf import ANF, walk, show as tshow
+    ix = run.index
+
+    def schema(fi):
+        r = ANF(ix, fi).run()
+        best = None
+        for e in r.events:
+            for t in ([e.term] if e.kind == "call" else [getattr(e, "value", ())]):
+                for x in walk(t):
+                    if x[0] == "list" and x[1] and all(i_[0] == "tuple" and len(i_[1]) == 2 and i_[1][0][0] == "c" for i_ in x[1]) \
+                            and any(i_[1][0] == ("c", "order") for i_ in x[1]):
+                        best = {i_[1][0][1]: tshow(i_[1][1]) for i_ in x[1]}
+        return best
+    fm = ix.func("pandapipes.multinet.multinet.get_default_multinet_structure")
+    fn_ = ix.func("pandapipes.pandapipes_net.add_default_components")
+    run.analysed(fm)
+    run.analysed(fn_)
+    a, b = schema(fm), schema(fn_)
+    if a is None or b is None:
+        raise AnalysisError("unrecognised shape: controller table declarations not found (multinet: %s, net: %s)" % (a is not None, b is not None))
+    for col in sorted(set(a) | set(b)):
+        run.ob("controller-schema|%s" % col, a.get(col) == b.get(col),
+               "column %r of the controller table has the same type in a MultiNet (%s) and in a pandapipesNet (%s)" % (col, a.get(col), b.get(col)),
+               run.where(fm, fm.node))
+    run.floor(5)
+
+
+RULES = [("R20.1", r20_1), ("R20.2", r20_2), ("R20.3", r20_3), ("R20.4", r20_4), ("R20.5", r20_5), ("R20.6", r20_6), ("R20.7", r20_7), ("R20.8", r20_8)]
